@@ -92,7 +92,8 @@ class TableOfContents(DirectivePlugin):
 def render_html_toc(renderer: "BaseRenderer", title: str, collapse: bool = False, **attrs: Any) -> str:
     if not title:
         title = "Table of Contents"
-    content = render_toc_ul(attrs["toc"])
+    # only top level toc directives are annotated by the hook
+    content = render_toc_ul(attrs.get("toc", []))
 
     html = '<details class="toc"'
     if not collapse:
